@@ -115,7 +115,7 @@ def run_closed(ctx, docs=None):
         raise RuntimeError(f"the harness's own definitions are not accepted: {dd.issues}")
     g = c01.Gen(ctx.rng, v, pluralize.plural)
     if docs is None:
-        n = 500 if ctx.quick() else 6000
+        n = 800 if ctx.quick() else 8000
         docs = list(WITNESS) + [gen_doc(ctx.rng, g) for _ in range(n)]
     chars = sorted({c for d in docs for c in json.dumps(d, ensure_ascii=False) if ord(c) > 127})
     env = dict(v.payload(chars), **c01.detect_variant(), ns="")
